@@ -692,6 +692,14 @@ def m_map_ctor(ex, st, callee, args):
     else:
         raise Inconclusive("map with a non-constructor function %r" % (f,))
     if not (len(segs) >= 2 and segs[-2] in _s.ENUMS and segs[-1] in _s.ENUMS[segs[-2]]):
+        # a std function item with a single-result model (e.g. `<i128 as From<i32>>::from`): apply the model to the payload
+        h = ex.models.lookup(f.data.strip()) if isinstance(f, Opaque) and f.tag == "const" else None
+        if h is not None and isinstance(v, Adt) and v.ty in ("Option", "Result"):
+            if v.variant in ("None", "Err"):
+                return [(None, v)]
+            res = h(ex, st, f.data.strip(), [v.fields[0]])
+            if len(res) == 1 and res[0][0] is None:
+                return [(None, Adt(v.ty, v.variant, [res[0][1]]))]
         raise Inconclusive("map with function %s" % f.data)
     wrap = lambda x: Adt(segs[-2], segs[-1], [x])
     if isinstance(v, Adt) and v.ty == "Option":
